@@ -38,10 +38,13 @@ TokOK(t, V, den, p, fixed) ==
   /\ LET dlt == t[1] * den - V * P10(t[2])
      IN IF (V * P10(p)) % den = 0 THEN dlt = 0 ELSE IAbs(dlt) <= (den * P10(t[2])) \div P10(p)
 Den(s, k) == IF k = 1 THEN s.dx ELSE IF k = 2 THEN s.dy ELSE s.dv
+\* The lines must be the model's lines: the data lines in the model's order, one blank line between consecutive y-blocks.
+\* The blank line after the LAST block (the model's final line) may be missing: nothing distinguishes the two files for a reader.
 FileOK(L, ML, M, s, p) ==
-  /\ p >= 0 /\ p <= MaxP /\ Len(L) = Len(ML)
-  /\ \A n \in 1..Len(ML) : /\ Len(L[n]) = Len(ML[n])
-                           /\ \A k \in 1..Len(ML[n]) : TokOK(L[n][k], ML[n][k], Den(s, k), p, k <= 2 \/ ~M.cx)
+  /\ p >= 0 /\ p <= MaxP
+  /\ (Len(L) = Len(ML) \/ (Len(ML) > 0 /\ Len(L) = Len(ML) - 1))
+  /\ \A n \in 1..Len(L) : /\ Len(L[n]) = Len(ML[n])
+                          /\ \A k \in 1..Len(ML[n]) : TokOK(L[n][k], ML[n][k], Den(s, k), p, k <= 2 \/ ~M.cx)
 
 \* ---- a 1-D cross-section through every accessor of Mesh1D ----
 SectOK(e, S) == /\ e.rnn = Len(S.xn) /\ e.rnv = S.nv /\ e.rn = S.xn /\ e.rcoord = S.xn
